@@ -18,7 +18,7 @@ RULE = ("frames with 1..6 rows and 1..4 columns over bool/int/float/str/date/dat
         "with a non-missing value, nulls in the intermediate object, one record per row / one field per column; "
         "non-trivial = >=2 rows and a missing value; thorough adds all missing-position masks for <=4 rows x 6 dtypes")
 
-KINDS = ["bool", "int", "float", "str", "date", "datetime"]
+KINDS = ["bool", "int", "float", "str", "date", "datetime", "objbool", "objint"]
 ROUTES = ["lod", "json", "pandas", "arrow"]
 VALS = {
     "bool": [True, False],
@@ -27,8 +27,11 @@ VALS = {
     "str": ["a", "ä", "x y", "0", "None", "nan", "q\"r", "line\nbreak"],
     "date": [0, 1, 18000, 19000, -719162],
     "datetime": [0, 1, 1600000000000000, -62135596800000000],
+    # object columns: what a boolean / integer column with missing values is in a data frame
+    "objbool": [True, False],
+    "objint": [0, 1, -5, 7],
 }
-NA = {"float": "nan", "str": "", "date": None, "datetime": None}
+NA = {"float": "nan", "str": "", "date": None, "datetime": None, "objbool": None, "objint": None}
 
 
 def gen_case(rng, tier):
